@@ -39,6 +39,7 @@ def plan(tier, seed):
     shards = [("group", g) for g in GROUPS] + [("uniq_u", g) for g in GROUPS] + [("uniq_hkl", g) for g in GROUPS]
     shards.append(("alias",))
     shards += [("uniqlist", g) for g in GROUPS]
+    shards += [("threads", g) for g in GROUPS]
     names = list(GROUPS)
     for a in names:
         shards.append(("history", a, 2 if tier == "quick" else 3))
@@ -312,7 +313,57 @@ def _run_uniqlist(desc):
     return sh
 
 
+def _run_threads(desc):
+    """two python threads ask for the same named group while the module-level cache is empty (workers of a thread pool starting
+    up): every interleaving with at most 2 preemptions at the statements of sym_u.generate_group (the check-then-build-then-publish
+    region) is executed; each thread must receive the complete group, and the cache must hold it afterwards"""
+    _, name = desc
+    from ImageD11 import sym_u
+    from vt import pysched
+    sh = Shard()
+    order, cells = GROUPS[name]
+    sym_u.symcache.clear()
+    ref = [np.asarray(o, float) for o in getattr(sym_u, name)().group]
+    fn = sym_u.generate_group.__code__
+
+    def is_point(frame):
+        return frame.f_code is fn
+
+    def make():
+        return [lambda: [np.asarray(o, float).copy() for o in getattr(sym_u, name)().group] for _ in range(2)]
+    nexec = 0
+    for sw, res, err in pysched.explore(make, is_point, bound=2, reset=sym_u.symcache.clear):
+        nexec += 1
+        case = {"kind": "threads", "group": name, "switch_at_points": list(sw)}
+        for t in range(2):
+            if err[t] is not None:
+                sh.violation("%s:concurrent-construction-raises" % name, dict(case, thread=t), {"error": repr(err[t])[:200]})
+                break
+            got = res[t]
+            if len(got) != len(ref) or any(member_index(ref, o) < 0 for o in got):
+                sh.violation("%s:thread-received-an-incomplete-group" % name, dict(case, thread=t), {"order_seen": len(got), "order": len(ref)})
+                break
+        else:
+            after = [np.asarray(o, float) for o in getattr(sym_u, name)().group]
+            if len(after) != len(ref):
+                sh.violation("%s:cache-holds-an-incomplete-group-afterwards" % name, case, {"order_seen": len(after)})
+        sh.states += 1
+        sh.traces_validated += 1
+        if sh.violations:
+            break
+    sym_u.symcache.clear()
+    sh.evaluations += 1
+    sh.nontrivial += 1
+    sh.counters["max_schedules_per_group"] = nexec
+    sh.count("thread_schedules_executed", nexec)
+    sh.outcomes.add((name, "threads"))
+    sh.sample({"kind": "threads", "group": name, "schedules": nexec}, limit=1)
+    return sh
+
+
 def run_shard(desc):
+    if desc[0] == "threads":
+        return _run_threads(desc)
     if desc[0] == "uniqlist":
         return _run_uniqlist(desc)
     if desc[0] == "history":
